@@ -18,9 +18,11 @@ Inductive sexp :=
 | SFloat (b : list N)
 | SList (l : list sexp).
 
-Definition PREFIX_LIMIT : N := 64.
+(** Banana.prefixLimit: setPrefixLimit(n); 64 unless changed.  It bounds the number of base-128 digits in
+    front of a type byte (decoder) and, through 2 ** (7 n) - 1, the integers that are sent (encoder). *)
+Definition DEFAULT_lim : N := 64.
 Definition SIZE_LIMIT : N := 655360.            (* 640 * 1024 *)
-Definition LARGEST_LONG : Z := (2 ^ 448 - 1)%Z.   (* 2 ** (prefixLimit * 7) - 1 *)
+Definition largest_long (lim : N) : Z := (2 ^ (7 * Z.of_N lim) - 1)%Z.   (* 2 ** (prefixLimit * 7) - 1 *)
 Definition LARGEST_INT : Z := (2 ^ 31 - 1)%Z.
 Definition SMALLEST_INT : Z := (- 2 ^ 31)%Z.
 
@@ -79,9 +81,12 @@ Fixpoint assoc_id (t : list (list N * N)) (n : N) : option (list N) :=
 Definition vocab_id := assoc_word vocab.
 Definition vocab_word := assoc_id vocab.
 
+Section Limit.
+Variable lim : N.     (* the prefix limit, the same on both peers *)
+
 (** ---- encoder ---- *)
 Definition encode_int (z : Z) : res (list N) :=
-  if ((z <? - LARGEST_LONG) || (z >? LARGEST_LONG))%Z then Err ValueError   (* BananaError *)
+  if ((z <? - (largest_long lim)) || (z >? (largest_long lim)))%Z then Err ValueError   (* BananaError *)
   else if (z <? SMALLEST_INT)%Z then Ok (b128 (Z.to_N (- z)) ++ [LONGNEG])
   else if (z <? 0)%Z then Ok (b128 (Z.to_N (- z)) ++ [NEG])
   else if (z <=? LARGEST_INT)%Z then Ok (b128 (Z.to_N z) ++ [INT])
@@ -144,9 +149,9 @@ Fixpoint span128 (buf : list N) : list N * list N :=
 Definition step (pb : bool) (buf : list N) : step_res :=
   let '(num, tl) := span128 buf in
   match tl with
-  | [] => if PREFIX_LIMIT <? blen num then Fail ValueError else NeedMore
+  | [] => if lim <? blen num then Fail ValueError else NeedMore
   | ty :: rest =>
-    if PREFIX_LIMIT <? blen num then Fail ValueError else
+    if lim <? blen num then Fail ValueError else
     let n := from_le128 num in
     if ty =? LIST then (if SIZE_LIMIT <? n then Fail ValueError else Open n rest)
     else if ty =? STRING then
@@ -237,9 +242,10 @@ Definition feed_all (pb : bool) (st : state) (chunks : list (list N)) : state :=
 (** ---- well-formed expressions (what the encoder accepts) ---- *)
 Fixpoint wf (e : sexp) : Prop :=
   match e with
-  | SInt z => (- LARGEST_LONG <= z <= LARGEST_LONG)%Z
-  | SStr b => blen b <= SIZE_LIMIT
+  | SInt z => (- (largest_long lim) <= z <= (largest_long lim))%Z
+  | SStr b => blen b <= SIZE_LIMIT /\ blen b < 128 ^ lim
   | SFloat b => blen b = 8
-  | SList l => blen l <= SIZE_LIMIT /\ (fix all (l : list sexp) : Prop :=
+  | SList l => blen l <= SIZE_LIMIT /\ blen l < 128 ^ lim /\ (fix all (l : list sexp) : Prop :=
                                           match l with [] => True | x :: r => wf x /\ all r end) l
   end.
+End Limit.
